@@ -120,6 +120,23 @@ func c20R1(c *Ctx, id string) {
 			}
 		}
 		c.check(id+":functions", nil, 0, fmt.Sprintf("%d mutating surgery functions analysed", nFns), nFns >= 7, "expected the 7 mutating surgery commands")
+		// the helpers below the commands write the path they were given, nothing else
+		surgeonPath := modulePath + "/internal/surgeon"
+		gutsPath := modulePath + "/internal/guts_cli"
+		k := 0
+		for _, fn := range append(c.P.FnsIn(surgeonPath), c.P.FnsIn(gutsPath)...) {
+			if fn.Parent() != nil || len(fn.Params) == 0 {
+				continue
+			}
+			for _, callee := range []string{"guts_cli.WritePage", "surgeon.CopyPage", "surgeon.ClearFreelist", "surgeon.clearFreelistInMetaPage", "surgeon.ClearPageElements", "os.OpenFile", "os.Create"} {
+				for _, call := range plainCallsIn(fn, callee) {
+					k++
+					p, isP := call.Call.Args[0].(*ssa.Parameter)
+					ok := isP && p == fn.Params[0] && strings.Contains(strings.ToLower(p.Name()), "path")
+					c.check(fmt.Sprintf("%s:%s:%s#%d-same-path", id, shortFn(fn), callee, k), fn, call.Pos(), shortFn(fn)+" hands exactly its own path parameter to "+callee, ok, "a different path is written")
+				}
+			}
+		}
 	})
 }
 
